@@ -1,4 +1,5 @@
 """C13 - AnsiStr is equivalent to AnsiString; its str payload equals its rendering."""
+import io
 import types
 
 from .. import obs as O
@@ -51,6 +52,13 @@ class PayloadContract(Contract):
             payload = str.__str__(a)
             pct = '%s' % (a,)
             rend = a.to_str()
+            sio = io.StringIO()
+            sio.write(a)
+            print(a, end='', file=sio)
+            written = sio.getvalue()
+            if written != rend + rend:
+                ctx.violation('written-text-differs-from-rendering',
+                              {'written': written, 'to_str': rend, 'text': a.base_str}, call, mech='payload-written:' + call.name)
             if not (payload == pct == rend):
                 ctx.violation('payload-differs-from-rendering',
                               {'payload': payload, 'percent_s': pct, 'to_str': rend, 'text': a.base_str}, call,
